@@ -38,5 +38,39 @@ def run(chk):
     fn, tg, tr = VR.run_traversal(fx, FILE, 'OwnershipChecker::check_expr', 'expr', VR.empty_block)
     chk.floor('Expr variants with children', len(tg.variants_with_children('hir::Expr')), 15)
     X.apply(chk, fx, tr, FILE, 'C23-K4', EXCEPTIONS)
+    shadow_rule(chk, fx, fn)
     return ('Visitor-completeness over OwnershipChecker::check_expr (same engine as C22). Decides "every use position is visited"; '
             'which positions move a value and scoping are not decided.'), {}
+
+
+def shadow_rule(chk, fx, check_expr_fn):
+    """two cooperating sites: a lookup that lets a live variable of a nearer scope shadow a moved one is sound only if a definition becomes
+    alive *after* its own initializer was checked (otherwise `v = f v` inside a nested scope reads the moved outer `v` unnoticed)"""
+    chk.rule('C23-shadow', 'OwnershipChecker::check_if_dropped reports a moved variable found in *any* enclosing scope; if it lets a live variable of a nearer scope end the search '
+                           '(an Ok exit conditioned on alive_vars inside the scope loop), then the Def arm of check_expr must register the new name only after checking the definition body')
+    cid = fx.fn(FILE, 'OwnershipChecker::check_if_dropped')
+    early = []
+    for n, ctx in T.walk_ctx(cid['body']):
+        if n.get('k') == 'Ret' and 'x' in n and T.show(T.peel(n['x'])).startswith('Result::Ok') or (n.get('k') == 'Ret' and 'Ok(' in T.show(n.get('x') or {})):
+            if any(c[0] == 'loop' for c in ctx) and any(c[0] == 'if' and 'alive_vars' in T.show(c[1]) for c in ctx):
+                early.append(n)
+    if not early:
+        chk.ok('C23-shadow', 'no-shadow-shortcut', sample='check_if_dropped scans every enclosing scope for the moved name (no early Ok on alive_vars)')
+        return
+    # order of define(..) and the body check in the Def arm
+    order_ok = None
+    for m in [x for x in T.walk(check_expr_fn['body']) if x.get('k') == 'Match' and x.get('src') == 'Normal']:
+        for arm in m['arms']:
+            if any(v.endswith('hir::Expr::Def') for v in T.pat_variants(arm['pat'])):
+                ss = T.stmts_of(T.peel(arm['b'])) if T.peel(arm['b']).get('k') == 'Block' else []
+                idef = next((i for i, st in enumerate(ss) if any(c.get('k') == 'MCall' and c['n'] == 'define' for c in T.calls(st))), None)
+                ibody = next((i for i, st in enumerate(ss) if any(c.get('k') == 'MCall' and c['n'] in ('check_block', 'check_expr') and 'body' in T.show(c) for c in T.calls(st))), None)
+                if idef is not None and ibody is not None:
+                    order_ok = idef > ibody
+    if order_ok is None:
+        chk.lost.append('C23-shadow: cannot find define(..) / body check in the Def arm of check_expr')
+    elif order_ok:
+        chk.ok('C23-shadow', 'define-after-body')
+    else:
+        chk.bad('C23-shadow', 'OwnershipChecker::check_if_dropped', 'alive-shadows-moved', 'check_if_dropped stops with Ok as soon as a nearer scope holds a live variable of the same name, '
+                'while check_expr registers a definition as alive *before* checking its body: `v = f v` in a nested scope uses the moved outer `v` unnoticed', FILE, early[0]['l'])
